@@ -375,3 +375,4 @@ RENAME_FUNCS = [(F, 'midi_to_note_sequence')]
 EXPLANATION += (' Escape analysis: positive findings (unbounded integer into an int32 field without a range guard - guards against constants within int32 narrow, sys.maxsize does not; raise of another class) are definite, forms outside the fragment are undecided; add(field=...) keywords are type-checked like stores. PAIR/total-is-max-end.')
 EXPLANATION += (' Round 6: ' + "WELLFORMED/resolution-positive: if the installed loader can hand over a negative resolution (mido's header format and PrettyMIDI.__init__ are read on every run), no return of midi_to_note_sequence is reachable with resolution -1 (finding F28).")
 EXPLANATION += (' Round 7: ' + 'WELLFORMED/resolution-positive follows the helper that produces the decoded object and reads only the conditions on the resolution (divmod pairs and membership in literal tables are folded).')
+EXPLANATION += (' Rounds 9-10: ' + 'the escape engine models str.encode / bytes.decode (literal codec and handler; clean, possibly-surrogate and UTF-8 text types): a possibly-surrogate string stored into a string field raises UnicodeEncodeError; exception translation by a context-manager class is cannot-classify.')
